@@ -1,0 +1,162 @@
+//go:build verif
+
+// Contracts for gpverify (contract-based deductive verification, see /verif/DESIGN.md).
+// Comments only: the compiled package is identical with or without the build tag.
+
+package grpcmux
+
+//@ ghost sreg: map[Int]set[Int]
+//@ ghost kch_owner: map[Int]Int
+//@ ghost creg: map[Int]set[Int]
+//@ chaninv grpcmux.GRPCServerMuxer.knockCh: sreg[kch_owner[ch]][elem]   [C08.mux-s]
+
+//@ type grpcmux.GRPCServerMuxer
+//@   guarded_by acceptMutex: map:acceptChannels   [C20.guard] [C08.mux-s]
+//@   inv this.acceptChannels != nil && (forall k :: sreg[this][k] ==> k in this.acceptChannels) && (forall k :: k in this.acceptChannels ==> this.acceptChannels[k] != nil && !closed(this.acceptChannels[k]) && allocated(this.acceptChannels[k]))   [C08.mux-s]
+//@   rely acceptMutex: forall k :: old(sreg[this][k]) ==> sreg[this][k]   [C08.mux-s]
+//@   immutable addr, logger, ln, sessionErrCh, knockCh, acceptChannels   [C20.guard]
+//@   never_closed knockCh   [C20.send]
+//@   writers grpcmux.NewGRPCServerMuxer
+
+//@ type grpcmux.GRPCClientMuxer
+//@   guarded_by acceptMutex: map:acceptListeners   [C20.guard] [C08.mux-c]
+//@   inv this.acceptListeners != nil && (forall k :: creg[this][k] ==> k in this.acceptListeners) && (forall k :: k in this.acceptListeners ==> this.acceptListeners[k] != nil && this.acceptListeners[k].waitCh != nil && allocated(this.acceptListeners[k]))   [C08.mux-c]
+//@   immutable logger, session, acceptListeners   [C20.guard]
+//@   writers grpcmux.NewGRPCClientMuxer
+
+//@ type grpcmux.blockedClientListener
+//@   immutable session, waitCh, doneCh   [C20.guard]
+//@   never_closed waitCh   [C20.send]
+//@   writers grpcmux.newBlockedClientListener
+
+//@ type grpcmux.blockedServerListener
+//@   immutable addr, acceptCh, doneCh   [C20.guard]
+//@   never_closed acceptCh   [C20.send]
+//@   writers grpcmux.newBlockedServerListener
+
+//@ func grpcmux.NewGRPCServerMuxer
+//@   nopanic [C08.total] [C16.total]
+//@   nonblocking
+//@   requires ln != nil && logger != nil
+//@   modifies heap_fresh, kch_owner, sreg
+//@   at return#1 set kch_owner := kch_owner[result.knockCh := result]
+//@   at return#1 set sreg := sreg[result := emptyset("Int")]
+//@   ensures result != nil && fresh(result) && result.ln == ln && result.knockCh != nil && result.sessionErrCh != nil && result.acceptChannels != nil && !held(result.acceptMutex)   [C08.new] [C18.serve]
+//@   ensures kch_owner[result.knockCh] == result   [C08.new]
+
+//@ func (*grpcmux.GRPCServerMuxer).acceptSession
+//@   nopanic [C08.total] [C20.nopanic]
+//@   close_once [C20.close1]
+//@   requires m.logger != nil && ln != nil && m.sessionErrCh != nil && !closed(m.sessionErrCh)
+//@   modifies heap, yaccepts, yopens, $LOG
+//@   ensures closed(m.sessionErrCh)   [C08.session]
+
+//@ func (*grpcmux.GRPCServerMuxer).session
+//@   nopanic [C08.total] [C03.d]
+//@   bounded always [C09.timer] [C03.c]
+//@   requires m.sessionErrCh != nil
+//@   modifies nothing
+//@   ensures result1 == nil ==> result0 != nil && result0 == m.sess   [C08.session]
+//@   ensures result1 != nil ==> result0 == nil   [C08.session]
+
+//@ func (*grpcmux.GRPCServerMuxer).Accept
+//@   nopanic [C08.total] [C20.nopanic]
+//@   bounded peer-dead [C09.timer]
+//@   wait send#1 the brokered listener for the knocked ID is being accepted on by its gRPC server (AcceptAndServe) until it is closed
+//@   requires m.sessionErrCh != nil && m.knockCh != nil && m.logger != nil && !held(m.acceptMutex) && kch_owner[m.knockCh] == m
+//@   modifies heap, yaccepts, tokens, conns_open, $LOG
+//@   loop#1 invariant !held(m.acceptMutex)
+//@   after select#1 bind kid: Int := recv0
+//@   after select#1 bind ksel: Int := index
+//@   at call fmt.Errorf#2 assert false   [C08.mux-s]
+//@   at send#1 assert ksel == 0 && chan == m.acceptChannels[kid]   [C08.mux-s]
+
+//@ func (*grpcmux.GRPCServerMuxer).Close
+//@   nopanic [C18.total] [C08.total]
+//@   bounded always [C03.c]
+//@   requires m.ln != nil && m.sessionErrCh != nil
+//@   modifies lsn
+//@   local ln_closed: Bool := false
+//@   after call (net.Listener).Close#1 set ln_closed := true
+//@   at call (net.Listener).Close#1 assert recv == m.ln   [C18.serve]
+//@   ensures lsn == old(lsn) - 1   [C18.serve]
+
+//@ func (*grpcmux.GRPCServerMuxer).Listener
+//@   nopanic [C08.total] [C20.nopanic]
+//@   bounded always [C03.c]
+//@   requires m.sessionErrCh != nil && !held(m.acceptMutex)
+//@   modifies heap_fresh, sreg, mapof(m.acceptChannels)
+//@   at mapupdate#1 set sreg := sreg[m := sreg[m][key := true]]
+//@   ensures !held(m.acceptMutex)   [C09.balance]
+//@   ensures result1 == nil ==> result0 != nil && sreg[m][id]   [C08.mux-s]
+//@   ensures result1 != nil ==> result0 == nil && sreg == old(sreg)   [C08.mux-s]
+
+//@ func (*grpcmux.GRPCServerMuxer).AcceptKnock
+//@   nopanic [C08.total] [C20.nopanic]
+//@   bounded peer-dead [C09.timer]
+//@   wait send#1 the knock channel has capacity 1 and Accept drains it before handing out the next connection; establishments are sequential (documented)
+//@   requires m.knockCh != nil && kch_owner[m.knockCh] == m && sreg[m][id]   [C08.mux-s]
+//@   modifies nothing
+//@   at send#1 assert value == id   [C08.mux-s]
+//@   ensures result == nil
+
+//@ func (*grpcmux.GRPCServerMuxer).Dial
+//@   nopanic [C08.total] [C03.d]
+//@   bounded peer-dead [C03.c]
+//@   requires m.sessionErrCh != nil
+//@   modifies yopens, tokens
+
+//@ func grpcmux.NewGRPCClientMuxer
+//@   nopanic [C08.total] [C03.d]
+//@   nonblocking
+//@   requires logger != nil && addr != nil
+//@   modifies heap_fresh, conns_open, yaccepts, yopens, creg, $LOG
+//@   at return#3 set creg := creg[result0 := emptyset("Int")]
+//@   ensures result1 == nil ==> result0 != nil && fresh(result0) && result0.session != nil && result0.acceptListeners != nil && !held(result0.acceptMutex)   [C08.new]
+//@   ensures result1 != nil ==> result0 == nil   [C08.new]
+
+//@ func (*grpcmux.GRPCClientMuxer).Listener
+//@   nopanic [C08.total] [C20.nopanic]
+//@   nonblocking
+//@   requires !held(m.acceptMutex)
+//@   modifies heap_fresh, creg, mapof(m.acceptListeners)
+//@   at mapupdate#1 set creg := creg[m := creg[m][key := true]]
+//@   ensures !held(m.acceptMutex)   [C09.balance]
+//@   ensures result1 == nil && result0 != nil && creg[m][id]   [C08.mux-c]
+
+//@ func (*grpcmux.GRPCClientMuxer).AcceptKnock
+//@   nopanic [C08.total] [C20.nopanic]
+//@   nonblocking
+//@   requires !held(m.acceptMutex)
+//@   modifies nothing
+//@   at call (*grpcmux.blockedClientListener).unblock#1 assert recv == m.acceptListeners[id]   [C08.mux-c]
+//@   ensures !held(m.acceptMutex)   [C09.balance]
+//@   ensures creg[m][id] ==> result == nil   [C08.mux-c]
+
+//@ func (*grpcmux.GRPCClientMuxer).Dial
+//@   nopanic [C08.total] [C03.d]
+//@   bounded peer-dead [C03.c]
+//@   requires m.session != nil
+//@   modifies yopens
+
+//@ func (*grpcmux.blockedClientListener).unblock
+//@   nopanic [C08.total] [C20.nopanic]
+//@   nonblocking
+//@   requires b.waitCh != nil
+//@   modifies nothing
+
+//@ func (*grpcmux.blockedClientListener).Accept
+//@   nopanic [C08.total] [C03.d]
+//@   bounded peer-dead [C09.timer]
+//@   wait select#1 ends when the listener's doneCh is closed (listener closed) or a knock unblocks it
+//@   requires b.waitCh != nil && b.doneCh != nil && b.session != nil
+//@   modifies yaccepts
+
+//@ func (*grpcmux.blockedServerListener).Accept
+//@   nopanic [C08.total] [C03.d]
+//@   bounded peer-dead [C09.timer]
+//@   wait select#1 ends when the listener's doneCh is closed (listener closed) or the muxer hands over a connection
+//@   requires b.acceptCh != nil && b.doneCh != nil
+//@   modifies nothing
+//@   after select#1 bind bsel: Int := index
+//@   ensures bsel == 1 ==> result0 == nil && result1 != nil   [C08.mux-s]
